@@ -384,6 +384,36 @@ Section StoreProofs.
     unfold LocalStore.get_data, LocalStore.get_chunk, has_chunk, read_file. rewrite P. repeat split; reflexivity.
   Qed.
 
+  (* RemoveChunk through a store of one (id, format) changes nothing that a store on the same directory
+     serves for any other (id, format) *)
+  Lemma remove_chunk_frame st j s s' st2 i :
+    remove_chunk st j s = RmOk s' ->
+    st_base st2 = st_base st -> wf_id i -> wf_id j ->
+    (i <> j \/ st_unc st2 <> st_unc st) ->
+    get_chunk st2 i s' = get_chunk st2 i s /\ has_chunk st2 i s' = has_chunk st2 i s.
+  Proof.
+    unfold remove_chunk. set (p := snd (name_from_id st j)).
+    destruct (probe p s) as [en|e]; [|discriminate].
+    destruct (remove p s) as [s1|e] eqn:R; [|discriminate]. intros E B Wi Wj D. inversion E; subst s1. clear E.
+    assert (U : forall q, stat q s' = if path_eqb q p then None else stat q s).
+    { unfold remove in R. destruct (resolve p s) as [[m l|m b|m t]|e] eqn:RS;
+        try (intros q; apply (proj2 (stat_unlink _ _ _ R))).
+      unfold rmdir in R. destruct (stat_upd_point _ _ _ _ R) as (r & F & _ & P).
+      assert (L : lookup p s = Some (Dir m l)) by (unfold lookup; now rewrite RS). rewrite L in F, P.
+      destruct l; [|discriminate]. inversion F; subst r. apply P; exact I. }
+    assert (N : snd (name_from_id st2 i) <> p).
+    { intros X. destruct st as [b1 z1 k1], st2 as [b2 z2 k2]. cbn [st_base st_unc] in *. subst b2.
+      apply name_from_id_inj in X; [|exact Wi|exact Wj]. destruct X as [-> ->]. destruct D; congruence. }
+    assert (P : probe (snd (name_from_id st2 i)) s' = probe (snd (name_from_id st2 i)) s).
+    { apply probe_ext.
+      - rewrite U. replace (path_eqb (snd (name_from_id st2 i)) p) with false; [reflexivity|].
+        symmetry. now apply path_eqb_neq.
+      - intros q I. apply in_sprefixes_length in I. rewrite U.
+        replace (path_eqb q p) with false; [reflexivity|]. symmetry. apply path_eqb_neq. intros ->.
+        unfold p in I. rewrite !name_length, B in I. lia. }
+    unfold LocalStore.get_chunk, has_chunk, read_file. rewrite P. split; reflexivity.
+  Qed.
+
   Hypothesis z_law : forall x b, zcomp x = Some b -> zdecomp b = Some x.
   Hypothesis z_nonempty : forall x b, zcomp x = Some b -> b <> [].
 
